@@ -159,7 +159,8 @@ def run_in_slot(a, meta, patch, checks, dst):
         os.makedirs(vd, exist_ok=True)
         sh(["rsync", "-a", "--delete", "--exclude", ".git", "--exclude", "build/run", "--exclude", "build/replay", "--exclude", "build/*.lock", V + "/", vd + "/"])
         gm = os.path.join(vd, "harness", "go.mod")
-        open(gm, "w").write(open(gm).read().replace("=> /repo", "=> " + rd))
+        gmtxt = open(gm).read().replace("=> /repo", "=> " + rd)
+        open(gm, "w").write(gmtxt)
         env = dict(ENV, VERIF_REPO=rd)
         for c in checks:
             t = time.time()
